@@ -4,12 +4,18 @@
 EXTENDS Msg, Json, TLC
 
 RtOp == [k |-> "rt", node |-> "", w |-> "", framed |-> TRUE]
-GInit == /\ t \in Types /\ pres \in PresenceSets(t) /\ op = RtOp
+GInit == /\ t \in Types /\ pres \in PresenceSets(t) /\ nodes = Nodes(t, pres) /\ op = RtOp
          /\ done = FALSE /\ verdict = "none"
 GNext == Parse
 
-Shape == [t |-> t, pres |-> pres, nodes |-> Nodes(t, pres),
-          ops |-> { [k |-> o.k, node |-> o.node, w |-> o.w, framed |-> o.framed, expect |-> Expect(t, pres, o)]
-                    : o \in {x \in Ops(t, pres) : OpOK(t, pres, x)} }]
+Shape == [t |-> t, pres |-> pres, nodes |-> nodes,
+          ops |-> { [k |-> o.k, node |-> o.node, w |-> o.w, framed |-> o.framed, expect |-> Expect(nodes, o)]
+                    : o \in {x \in Ops(nodes) : OpOK(nodes, x)} }]
 Emit == done => PrintT(ToJson(Shape))
+\* the sanity invariants of Msg, for every operation of the shape at once
+VerdictAll == \A o \in {x \in Ops(nodes) : OpOK(nodes, x)} :
+                LET v == Expect(nodes, o) IN
+                  /\ v \in {"accept", "reject", "any"}
+                  /\ (o.k = "rt" <=> v = "accept")
+                  /\ (o.k = "cut" /\ ~o.framed => v = "any")
 =====================================================================
